@@ -13,6 +13,7 @@ import Proofs.CastInt
 import Proofs.CastTyped
 import Model.Value
 import Proofs.ValueTie
+import Proofs.TypedHistory
 
 namespace Jl.C10
 open Jl Cast CastTyped Jl.Value
@@ -204,5 +205,54 @@ theorem value_model_is_the_source :
     Gen.valueTable.formats = Format.declared.map (fun f => (f.goName, (f.ctorIdx : Int))) :=
   ⟨ValueTie.table_known, ValueTie.import_as_modelled, ValueTie.importCell_as_modelled,
    ValueTie.export_as_modelled, ValueTie.formats_as_modelled⟩
+
+
+/-! ### The last sentence over whole histories (Proofs/TypedHistory)
+
+`DeclKept t row`: every column the template declares is still in the row with its format and raw
+type; `TypedAt t row`: the raw value of each such column is nil or of its declared raw type.
+The operations: `ImportAtKey`, `UnmarshalJSON` (any text), `Row.Import`, `ImportAtPath`, `Set`
+(any value), `CloneRow`, `Template.CreateRow`. -/
+
+open Jl.Value Jl.TypedHistory in
+/-- One import into a declared cell, accepted OR refused, of anything that is not itself a
+    `jsonline.Value` cell — a nested object (a Row) included, since 5abb079: the cell keeps its
+    format and raw type and holds nil or a value of that type. -/
+theorem import_typed_rows_included (ext : Ext) {f : Format} {ty : Ty} {x : Dyn} {c' : Val}
+    {e : Option ErrClass} (hx : NoCellVal x)
+    (h : importCell ⟨genTables, ext⟩ f ty x = .ok (c', e)) :
+    ∃ raw', c' = .cell raw' f ty ∧ RawTyped ty raw' :=
+  importCell_spec ext hx h
+
+open Jl.Value Jl.Template Jl.TypedHistory in
+/-- Reading a line with a template (accepted or rejected, ANY text): every declared column keeps
+    its declaration and holds nil or a value of its raw type. -/
+theorem row_read_with_a_template_is_typed (ext : Ext) {t : Tmpl} (hnd : (OMap.keys t).Nodup)
+    (hp : NilProtos t) {line : Bytes} {row : RowV} {e : Option ErrClass}
+    (h : getRow ⟨genTables, ext⟩ t line = .ok (row, e)) : DeclKept t row ∧ TypedAt t row :=
+  getRow_typed ext hnd hp h
+
+open Jl.Value Jl.Template Jl.TypedHistory in
+/-- …and it stays so through ANY history of the mutators applied to a row the template created:
+    every state reached keeps every declaration and is typed.  `NoValueArg`: the API arguments
+    are not `jsonline.Value` cells (a Value hands over its own declaration, by the API's
+    contract: `Demo.iak_value_replaces_declaration`); `¬ Bare`: no `CreateRow` from a Go map,
+    slice or Row, which builds cells with `NewValue` — "try to cast, else keep"
+    (`Demo.createRow_gomap_untyped`); a construction, not an import. -/
+theorem every_history_stays_typed (ext : Ext) {t : Tmpl} (hnd : (OMap.keys t).Nodup)
+    (hp : NilProtos t) (ops : List Op) (hs : ∀ op ∈ ops, op.NoValueArg)
+    (hb : ∀ op ∈ ops, ¬ op.Bare) {row₀ : RowV}
+    (h0 : createRowEmpty ⟨genTables, ext⟩ t = .ok row₀) :
+    ∀ r ∈ trace ⟨genTables, ext⟩ t row₀ ops, DeclKept t r ∧ TypedAt t r :=
+  history_empty_typed ext hnd hp ops hs hb h0
+
+open Jl.Value Jl.Template Jl.TypedHistory in
+/-- The same from a row read from text. -/
+theorem every_history_from_a_line_stays_typed (ext : Ext) {t : Tmpl}
+    (hnd : (OMap.keys t).Nodup) (hp : NilProtos t) (ops : List Op)
+    (hs : ∀ op ∈ ops, op.NoValueArg) (hb : ∀ op ∈ ops, ¬ op.Bare) {line : Bytes}
+    {row₀ : RowV} {e : Option ErrClass} (h0 : getRow ⟨genTables, ext⟩ t line = .ok (row₀, e)) :
+    ∀ r ∈ trace ⟨genTables, ext⟩ t row₀ ops, DeclKept t r ∧ TypedAt t r :=
+  history_text_typed ext hnd hp ops hs hb h0
 
 end Jl.C10
